@@ -628,7 +628,7 @@ static long gen_idx(rng_t *r, int len)
 
 static void gen_list(plan_t *p, rng_t *r)
 {
-    int nops = rng_range(r, 3, 40), len[NSLOT] = { 0, 0 }, ex[NSLOT] = { 1, 0 };
+    int nops = rng_range(r, 3, 40 * sim_tier_scale()), len[NSLOT] = { 0, 0 }, ex[NSLOT] = { 1, 0 };
     gen_alloc_knobs(p, r);
     plan_op(p, 0, "new", 1, 0L);
     for (int i = 0; i < nops; i++) {
@@ -652,7 +652,7 @@ static void gen_list(plan_t *p, rng_t *r)
 }
 static void gen_vector(plan_t *p, rng_t *r)
 {
-    int nops = rng_range(r, 3, 40), len[NSLOT] = { 0, 0 }, ex[NSLOT] = { 1, 0 };
+    int nops = rng_range(r, 3, 40 * sim_tier_scale()), len[NSLOT] = { 0, 0 }, ex[NSLOT] = { 1, 0 };
     gen_alloc_knobs(p, r);
     plan_op(p, 0, "new", 1, 0L);
     for (int i = 0; i < nops; i++) {
@@ -670,7 +670,7 @@ static void gen_vector(plan_t *p, rng_t *r)
 }
 static void gen_map(plan_t *p, rng_t *r)
 {
-    int nops = rng_range(r, 3, 40), ex[NSLOT] = { 1, 0 }, krange = rng_chance(r, 1, 3) ? 3 : 9;
+    int nops = rng_range(r, 3, 40 * sim_tier_scale()), ex[NSLOT] = { 1, 0 }, krange = rng_chance(r, 1, 3) ? 3 : 9;
     gen_alloc_knobs(p, r);
     plan_op(p, 0, "new", 1, 0L);
     for (int i = 0; i < nops; i++) {
